@@ -208,6 +208,7 @@ pub fn sites(tier: Tier) -> Vec<Site> {
                 roundtrip(acc, i, &label, &format!("{}|{}", t.kind, t.field), &p, compressed, true, None, &replay);
             }));
     }
+    sites.push(packet_short_io_site("C01"));
     sites.push(mso_name_text_site("C01"));
     sites.push(container_ops_site("C01"));
     sites
@@ -217,6 +218,57 @@ pub fn sites(tier: Tier) -> Vec<Site> {
 /// type and mode.  The wire TextStart is the offset of the text in the ENCODED message, the typed one
 /// the offset in the string; typed -> wire -> typed must be the identity and wire -> typed -> wire too.
 /// (Shared by C01 and C02: it is a statement about values and about the meaning of a wire field.)
+/// The packets' own `BinRead` / `BinWrite` are public and take any `Read + Seek` / `Write + Seek`: every kind's B0
+/// and B1 packet body (what `Codec` hands to `Packet::read`) through a reader that delivers 1, 2, 3, 5 or 7 bytes
+/// per call (optionally `Interrupted` on every second call), and back through a writer that takes as few.
+pub fn packet_short_io_site(prop: &'static str) -> Site {
+    use insim::core::binrw::{BinRead, BinWrite};
+    let mut bodies: Vec<(String, Vec<u8>)> = vec![];
+    for k in spec::load().iter() {
+        for b in [0u8, 1] {
+            let Some(f) = spec::ref_encode(k, &crate::gen::baseline(k, b), true) else { continue };
+            bodies.push((format!("{} B{b}", k.name), f[1..].to_vec()));
+        }
+    }
+    let bodies = Arc::new(bodies);
+    const CHUNKS: [usize; 5] = [1, 2, 3, 5, 7];
+    let n = bodies.len() as u64 * CHUNKS.len() as u64 * 2;
+    Site::new("packet-short-io", n,
+        "every kind's B0 and B1 packet body through Packet's public BinRead from a reader that returns at most {1, 2, 3, 5, 7} bytes per call x {never, every second call interrupted}: same packet as from a plain cursor; written through a writer that takes as few bytes per call: the same bytes",
+        move |i, acc| {
+            acc.eval();
+            let interrupts = i % 2 == 1;
+            let chunk = CHUNKS[((i / 2) % CHUNKS.len() as u64) as usize];
+            let (name, body) = &bodies[(i / (2 * CHUNKS.len() as u64)) as usize];
+            let replay = json!({"site": "packet-short-io", "index": i, "packet": name, "bytes_per_call": chunk, "interrupts": interrupts});
+            let plain = guard(|| Packet::read_le(&mut std::io::Cursor::new(&body[..])).map(|p| format!("{p:?}")).map_err(|e| e.to_string().chars().take(60).collect::<String>()));
+            let chopped = guard(|| {
+                let mut c = crate::choppy::Choppy::new(body.clone(), 0, chunk);
+                c.interrupt_every = if interrupts { 2 } else { 0 };
+                let r = Packet::read_le(&mut c);
+                let text = r.as_ref().map(|p| format!("{p:?}")).map_err(|e| e.to_string().chars().take(60).collect::<String>());
+                let back = r.ok().map(|p| {
+                    let mut w = crate::choppy::ChoppyWriter::new(chunk, if interrupts { 3 } else { 0 });
+                    let wr = p.write_le(&mut w).map_err(|e| e.to_string());
+                    let mut plainw = std::io::Cursor::new(Vec::new());
+                    let pr = p.write_le(&mut plainw).map_err(|e| e.to_string());
+                    (wr.is_ok() == pr.is_ok() && (wr.is_err() || w.data == *plainw.get_ref()), crate::report::hex(&w.data[..w.data.len().min(24)]), crate::report::hex(&plainw.get_ref()[..plainw.get_ref().len().min(24)]))
+                });
+                (text, back)
+            });
+            match (plain, chopped) {
+                (Err(p), _) | (_, Err(p)) => acc.violate(i, format!("{prop}|packet-short-io|panic"), format!("{name}: {p}"), replay),
+                (Ok(a), Ok((b, back))) => {
+                    if a != b {
+                        acc.violate(i, format!("{prop}|packet-short-io|read-differs-from-plain-read"), format!("{name} read {chunk} byte(s) at a time gives {}, from a plain cursor {}", format!("{b:?}").chars().take(120).collect::<String>(), format!("{a:?}").chars().take(120).collect::<String>()), replay);
+                    } else if let Some((false, slow, fast)) = back {
+                        acc.violate(i, format!("{prop}|packet-short-io|write-differs-from-plain-write"), format!("{name} written {chunk} byte(s) at a time gives {slow}.., into a plain cursor {fast}.."), replay);
+                    } else { acc.class("short-io-agrees"); acc.nontrivial(); }
+                },
+            }
+        })
+}
+
 pub fn mso_name_text_site(prop: &'static str) -> Site {
         let names = ["", "Vasya", "\u{412}\u{430}\u{441}\u{44f}", "Kub\u{11b}na", "\u{65e5}\u{672c}", "\u{dc}nal", "\u{3a9}\u{3bc}"];
         let texts = ["", "hi", "f\u{fc}r", "\u{44c}\u{440}", "\u{11b}\u{161}", "\u{65e5}\u{672c}\u{8a9e}", "se\u{f1}or 8", "a\u{3a9}"];
